@@ -341,6 +341,7 @@ fn drive<R: Read>(r: &mut R, bufs: &[usize], limit: u64, acc: &mut OutAcc, buf: 
             }
             Ok(k) => {
                 consecutive_intr = 0;
+                faultio::progress();
                 acc.push(&buf[..k]);
                 if acc.len > limit {
                     o.outcome = "unbounded";
@@ -550,7 +551,7 @@ fn decode_case(job: &Job, bases: &Bases) -> Value {
         }
         Err(_) => {
             let (pm, th) = take_panic().unwrap_or(("?".into(), "?".into()));
-            if pm.contains(faultio::SPIN_MARK) {
+            if pm.contains(faultio::SPIN_MARK) || pm.contains(faultio::OPS_MARK) {
                 m.insert("o".into(), json!("spin"));
             } else {
                 m.insert("o".into(), json!("panic"));
@@ -887,6 +888,21 @@ fn encode_case(job: &Job, bases: &Bases) -> Value {
 }
 
 // ------------------------------------------------------------------ containment: thread + watchdog
+/// CPU seconds (user + system) this process has used, from /proc/self/stat (clock ticks of 1/100 s).
+fn process_cpu_secs() -> f64 {
+    let s = std::fs::read_to_string("/proc/self/stat").unwrap_or_default();
+    let rest = s.rsplit(')').next().unwrap_or("");
+    let f: Vec<&str> = rest.split_whitespace().collect();
+    // after the command name: state(0) ppid pgrp session tty tpgid flags minflt cminflt majflt cmajflt utime(11) stime(12)
+    let u: f64 = f.get(11).and_then(|x| x.parse().ok()).unwrap_or(0.0);
+    let k: f64 = f.get(12).and_then(|x| x.parse().ok()).unwrap_or(0.0);
+    (u + k) / 100.0
+}
+
+/// CPU seconds the code under test may burn without a single source / sink operation and without a single call
+/// returning data before the case is reported as spinning (structural: measured in consumed CPU, not in elapsed time).
+const SPIN_CPU_SECS: f64 = 20.0;
+
 fn thread_count() -> usize {
     std::fs::read_to_string("/proc/self/status")
         .ok()
@@ -921,6 +937,8 @@ pub fn run_job(job: &Job, bases: &Arc<Bases>) -> Done {
     };
     let t0 = Instant::now();
     let mut panic_at: Option<Instant> = None;
+    let mut last_progress = faultio::PROGRESS.load(Ordering::Relaxed);
+    let mut cpu_at_progress = process_cpu_secs();
     loop {
         match rx.recv_timeout(Duration::from_millis(200)) {
             Ok(c) => {
@@ -953,6 +971,17 @@ pub fn run_job(job: &Job, bases: &Arc<Bases>) -> Done {
                         return Done::Stuck(json!({"id": job.id, "o": "panic", "m": pm, "panic_thread": thn, "hung": true,
                                                   "op": job.op, "dec": job.dec.kind}));
                     }
+                }
+                // no operation on the source / sink and no data returned while the process keeps burning CPU: a loop
+                // inside the code under test that can never end (it has nothing new to look at)
+                let p = faultio::PROGRESS.load(Ordering::Relaxed);
+                let cpu = process_cpu_secs();
+                if p != last_progress {
+                    last_progress = p;
+                    cpu_at_progress = cpu;
+                } else if cpu - cpu_at_progress > SPIN_CPU_SECS {
+                    return Done::Stuck(json!({"id": job.id, "o": "spin", "op": job.op, "dec": job.dec.kind, "hung": true,
+                                              "m": format!("{:.0} CPU seconds without any source / sink operation or returned data", cpu - cpu_at_progress)}));
                 }
                 if t0.elapsed() > Duration::from_secs(job.timeout_s) {
                     return Done::Stuck(json!({"id": job.id, "o": "timeout", "op": job.op, "dec": job.dec.kind,
